@@ -21,6 +21,19 @@ let proto_str u =
   | UWildcard t -> Printf.sprintf "1/%s//" (cs t)
   | UUserset (t, id, r) -> Printf.sprintf "2/%s/%s/%s" (cs t) (cs id) (cs r)
 
+(* extraction cross-check (see bin/coqreplay_c29.py): with ORACLE_DUMP=<file> the numbers computed by
+   the extracted model are appended to that file *)
+let dump_chan = match Sys.getenv_opt "ORACLE_DUMP" with
+  | Some p when p <> "" -> Some (open_out_gen [Open_append; Open_creat] 0o644 p)
+  | _ -> None
+let bi b = if b then 1 else 0
+let sig_ l = (* length and byte sum of a Coq byte list *)
+  let s = coq_to_bytes l in
+  [String.length s; String.fold_left (fun a c -> a + Char.code c) 0 s]
+let dump id nums = match dump_chan with
+  | Some ch -> Printf.fprintf ch "%s %s\n" id (String.concat " " (List.map string_of_int nums))
+  | None -> ()
+
 let f _id vs =
   match vs with
   | I "1" :: s :: t :: id :: o :: r :: vo :: vr :: vuid :: vus :: vu :: wc :: twc :: ut
@@ -30,6 +43,11 @@ let f _id vs =
     let (mt, mid) = split_object s in
     let (mo, mr) = split_object_relation s in
     let ((mpt, mpid), mpr) = to_user_parts s in
+    dump _id ([1; bi (is_valid_object s); bi (is_valid_relation s); bi (is_valid_userid s); bi (is_valid_userset s);
+               bi (is_valid_user s); bi (is_wildcard s); bi (is_typed_wildcard s); bi (user_type_is_userset s);
+               (match parse_tuple_string s with Inl _ -> 0 | Inr ENoHash -> 1 | Inr EBadObject -> 2 | Inr ENoAt -> 3
+                                                | Inr EBadRelation -> 4 | Inr EBadUser -> 5)]
+              @ sig_ mt @ sig_ mid @ sig_ mo @ sig_ mr @ sig_ mpt @ sig_ mpid @ sig_ mpr);
     let impl_proto = match as_list proto with
       | [k; a; b; c] -> Printf.sprintf "%d/%s/%s/%s" (as_int k) (h a) (h b) (h c)
       | _ -> "?" in
@@ -62,6 +80,9 @@ let f _id vs =
   | I "2" :: a :: b :: c :: fup :: bo :: tors :: tks :: up0 :: up1 :: up2 :: sd :: um :: tpw :: [] ->
     let h v = hex_of_string (as_bytes v) in
     let a' = as_cbytes a and b' = as_cbytes b and c' = as_cbytes c in
+    dump _id ([2] @ sig_ (from_user_parts a' b' c') @ sig_ (tuple_key_to_string a' b' c')
+              @ sig_ (user_proto_to_string (UUserset (a', b', c')))
+              @ [bi (is_self_defining a' b' c'); bi (userset_match_type_and_relation a' b' c')]);
     check_fields [
       ("FromUserParts", false, cs (from_user_parts a' b' c'), h fup);
       ("BuildObject", false, cs (build_object a' b'), h bo);
@@ -76,4 +97,4 @@ let f _id vs =
     ]
   | _ -> "DIFF malformed-record"
 
-let () = run_oracle f
+let () = run_oracle f; (match dump_chan with Some ch -> close_out ch | None -> ())
